@@ -135,52 +135,59 @@ pub fn han_budget_lookalike(name: &str) -> bool {
     false
 }
 
-pub fn format_all_routes(f: &F, n: &Narsese) -> Result<String, String> {
-    let s = f.e.format_narsese(n);
-    let s2 = match n {
-        Narsese::Term(t) => f.e.format_term(t),
-        Narsese::Sentence(s) => f.e.format_sentence(s),
-        Narsese::Task(t) => f.e.format_task(t),
-    };
-    if s != s2 {
-        return Err(format!("format_narsese gives {s:?} but the per-kind formatter gives {s2:?}"));
-    }
-    let s3 = f.e.format(n);
-    if s != s3 {
-        return Err(format!("format_narsese gives {s:?} but the FormatTo route gives {s3:?}"));
-    }
-    // the trait called on the bare value, and the generic `format` entry point given the bare value
+/// The texts all public formatting routes print for a value, without repetitions (the first is `format_narsese`'s):
+/// `format_narsese`, the per-kind method, the generic `format` entry point and the `FormatTo` trait, each on the
+/// wrapped and on the bare value. The routes need not print the same text - a route may, say, print the members
+/// of a set in a different order - but EVERY text is "the formatted value" of the property and is checked.
+pub fn format_routes(f: &F, n: &Narsese) -> Vec<String> {
     use narsese::api::FormatTo;
-    let (s4, s5) = match n {
-        Narsese::Term(t) => (t.format_to(f.e), f.e.format(t)),
-        Narsese::Sentence(x) => (x.format_to(f.e), f.e.format(x)),
-        Narsese::Task(t) => (t.format_to(f.e), f.e.format(t)),
+    let mut out = vec![f.e.format_narsese(n)];
+    let mut add = |s: String| {
+        if !out.contains(&s) {
+            out.push(s);
+        }
     };
-    if s != s4 || s != s5 {
-        return Err(format!("format_narsese gives {s:?} but FormatTo on the bare value gives {s4:?} / {s5:?}"));
+    add(f.e.format(n));
+    add(n.format_to(f.e));
+    match n {
+        Narsese::Term(t) => {
+            add(f.e.format_term(t));
+            add(t.format_to(f.e));
+            add(f.e.format(t));
+        }
+        Narsese::Sentence(x) => {
+            add(f.e.format_sentence(x));
+            add(x.format_to(f.e));
+            add(f.e.format(x));
+        }
+        Narsese::Task(t) => {
+            add(f.e.format_task(t));
+            add(t.format_to(f.e));
+            add(f.e.format(t));
+        }
     }
-    Ok(s)
+    out
 }
 
-/// The oracle for one already-built value: format (all routes agree), parse, same kind, same
-/// canonical form.
+/// the text `format_narsese` prints (kept for callers that need one text)
+pub fn format_all_routes(f: &F, n: &Narsese) -> Result<String, String> {
+    Ok(f.e.format_narsese(n))
+}
+
 pub fn check_built(f: &F, expect: &CV, n: &Narsese) -> Result<String, String> {
-    let s = format_all_routes(f, n)?;
-    match f.e.parse::<Narsese>(&s) {
-        Err(e) => Err(format!("parse of the formatted text {s:?} failed: {e}")),
-        Ok(p) => {
-            let got = cv_of(&p);
-            if &got != expect {
-                Err(format!(
-                    "formatted text {s:?} parses to {} instead of {}",
-                    show_cv(&got),
-                    show_cv(expect)
-                ))
-            } else {
-                Ok(s)
+    let texts = format_routes(f, n);
+    for s in &texts {
+        match f.e.parse::<Narsese>(s) {
+            Err(e) => return Err(format!("parse of the formatted text {s:?} failed: {e}")),
+            Ok(p) => {
+                let got = cv_of(&p);
+                if &got != expect {
+                    return Err(format!("formatted text {s:?} parses to {} instead of {}", show_cv(&got), show_cv(expect)));
+                }
             }
         }
     }
+    Ok(texts.into_iter().next().unwrap_or_default())
 }
 
 pub fn case(f: &F, v: &V) -> Result<String, String> {
